@@ -220,19 +220,14 @@ def run(repo, chk):
         chk.expect(re.fullmatch(r"self\._rule_iter \* self\._wn\.options\.time\.rule_timestep", v) is not None, "R-C04-4", "rules are evaluated at rule_iter * rule_timestep (line %d)" % g.g.nodes[s_]["line"], loc(pre, g.node_ast(s_)), found=v)
 
     # ---------------------------------------------------------------- R-C04-5 classification
-    ci = repo.func(CTRL, "Control.__init__")
-    table_ = {}
-    for n in walk(ci):
-        if isinstance(n, ast.If) and isinstance(n.test, ast.Call) and call_name(n.test) == "isinstance":
-            t = unparse(n.test.args[1])
-            asg = [s for s in n.body if isinstance(s, ast.Assign) and unparse(s.targets[0]) == "self._control_type"]
-            if asg:
-                table_[t] = unparse(asg[0].value)
-    els = [s for s in walk(ci) if isinstance(s, ast.Assign) and unparse(s.targets[0]) == "self._control_type"]
+    from ._shared import control_type_table
+    table_, default_, ci, init_ok = control_type_table(repo)
+    chk.fn(ci)
+    chk.expect(init_ok, "R-C04-5", "Control.__init__ stores the classification of the condition it was given", loc(ci))
     chk.expect(table_.get("TankLevelCondition") == "_ControlType.pre_and_postsolve", "R-C04-5", "tank-level controls are pre- and post-solve", loc(ci), found=table_)
     tkey = [k for k in table_ if "SimTimeCondition" in k and "TimeOfDayCondition" in k]
     chk.expect(bool(tkey) and table_[tkey[0]] == "_ControlType.presolve", "R-C04-5", "time-conditioned controls are pre-solve (back-tracked to their instant)", loc(ci), found=table_)
-    chk.expect(any(unparse(s.value) == "_ControlType.postsolve" for s in els), "R-C04-5", "other simple controls are post-solve", loc(ci))
+    chk.expect(default_ == "_ControlType.postsolve", "R-C04-5", "other simple controls are post-solve", loc(ci), found=default_)
     ri = repo.func(CTRL, "Rule.__init__")
     chk.expect("_ControlType.rule" in unparse(ri), "R-C04-5", "rules are classified as rules", loc(ri))
     gm = repo.func(CORE, "WNTRSimulator._get_control_managers")
@@ -401,7 +396,7 @@ WITNESSES = [
     dict(name="merged-sort", file=CORE, old="        presolve_controls_to_run.sort(key=lambda i: i[0]._priority)  # sort them by priority\n", new="", rule="R-C04-3"),
     dict(name="rule-clock-starts-at-zero", file=CORE, old="            self._rule_iter = 1\n", new="            self._rule_iter = 0\n", rule="R-C04-4"),
     dict(name="rule-increment-missing", file=CORE, old="                    self._wn.sim_time = self._rule_iter * self._wn.options.time.rule_timestep\n                    self._rule_iter += 1\n                    if not first_step:", new="                    self._wn.sim_time = self._rule_iter * self._wn.options.time.rule_timestep\n                    if not first_step:", rule="R-C04-4"),
-    dict(name="time-controls-postsolve", file=CTRL, old="        elif isinstance(condition, (TimeOfDayCondition, SimTimeCondition)):\n            self._control_type = _ControlType.presolve", new="        elif isinstance(condition, (TimeOfDayCondition, SimTimeCondition)):\n            self._control_type = _ControlType.postsolve", rule="R-C04-5"),
+    dict(name="time-controls-postsolve", file=CTRL, old="        elif isinstance(condition, (TimeOfDayCondition, SimTimeCondition)):\n            return _ControlType.presolve", new="        elif isinstance(condition, (TimeOfDayCondition, SimTimeCondition)):\n            return _ControlType.postsolve", rule="R-C04-5"),
     dict(name="first-step-guard-removed", file=CORE, old="        if first_step:  # we don't want to backtrack if the sim time is 0\n            presolve_controls_to_run = [(c, 0) for c, b in presolve_controls_to_run]\n", new="", rule="R-C04-6"),
     dict(name="reader-clocktime-once", file=IO, old="            control_obj = Control._time_control(wn, run_at_time, 'CLOCK_TIME', True, action_obj, control_name)", new="            control_obj = Control._time_control(wn, run_at_time, 'CLOCK_TIME', False, action_obj, control_name)", rule="R-C04-7"),
 ]
